@@ -691,6 +691,9 @@ def run(prog, rep, tier):
     rep.rule('LOOP-stale-read', 'no per-item variable is read in a loop before the iteration assigns '
              'it when its only other bindings are inside other loops')
     check_stale_loop_reads(prog, rep, ['tenpy/models/model.py', 'tenpy/networks/terms.py'])
+    rep.rule('EXPORT-op-string', 'consumers of CouplingTerms.to_TermList() (operator strings dropped) '
+             'do not put the identity between the operators')
+    check_export_op_string(prog, rep)
     return rep.finish(
         level='other',
         explanation='plus_hc / explicit_plus_hc protocol decided for %d sibling add_* methods of '
@@ -721,3 +724,45 @@ def check_index_wrap(prog, rep):
                                       'operators in neighbouring unit cells are mapped into the '
                                       'first one' % unparse(c)[:60], c.lineno)
     return n
+
+
+# ------------------------------------------------------------------ EXPORT-op-string
+def check_export_op_string(prog, rep):
+    """EXPORT-op-string: a two-site (multi-site) coupling is `op_i  S S .. S  op_j` with the operator
+    string S ('JW' for fermions) on the sites in between. CouplingTerms.to_TermList() unpacks the
+    key `(opname_i, op_str)` and DROPS `op_str` (fact read off its body: the name is bound and never
+    read). A consumer that takes its terms from there and fills the sites between the operators with
+    the identity therefore builds another operator than the MPO for every coupling with a
+    non-trivial string and range >= 2."""
+    mt = prog.module('tenpy/networks/terms.py')
+    g = mt.func('CouplingTerms.to_TermList')
+    bound = {x.id for lp in ast.walk(g) if isinstance(lp, ast.For) for x in ast.walk(lp.target)
+             if isinstance(x, ast.Name)}
+    # names that reach the output: arguments of `terms.append(..)` / the TermList constructor
+    read = {x.id for c in ast.walk(g) if isinstance(c, ast.Call) and (
+        (isinstance(c.func, ast.Attribute) and c.func.attr == 'append' and
+         unparse(c.func.value) == 'terms') or unparse(c.func) == 'TermList')
+            for a in c.args for x in ast.walk(a) if isinstance(x, ast.Name)}
+    dropped = sorted(n_ for n_ in bound - read if 'str' in n_)
+    rep.instance('EXPORT-op-string', {'fact': 'CouplingTerms.to_TermList drops the operator string',
+                                      'unused_loop_names': dropped})
+    n = 0
+    if not dropped:
+        return 1
+    m = prog.module('tenpy/algorithms/exact_diag.py')
+    for q, f in m.functions.items():
+        uses = [c for c in ast.walk(f) if isinstance(c, ast.Call) and isinstance(
+            c.func, ast.Attribute) and c.func.attr == 'to_TermList']
+        fills = [c for c in ast.walk(f) if isinstance(c, ast.Call) and unparse(c.func) in (
+            'np.eye', 'spsp.eye', 'np.identity')]
+        coupling_src = any('coupling_terms' in unparse(a.value) for a in ast.walk(f)
+                           if isinstance(a, ast.Assign))
+        if uses and fills and coupling_src:
+            n += 1
+            rep.instance('EXPORT-op-string', {'function': q, 'identity_between_operators': True})
+            rep.violation('EXPORT-op-string', m, q, 'identity-for-string',
+                          '%s takes the coupling terms through to_TermList() (operator strings '
+                          'dropped) and puts the identity on the sites between the operators: for '
+                          'fermionic couplings of range >= 2 the Jordan-Wigner string is missing, '
+                          'the exported matrix is not the operator of the MPO' % q, f.lineno)
+    return max(n, 1)
